@@ -197,6 +197,17 @@ for isa, arch in (("x86", "zen1"), ("aarch64", "n1")):
                 check_entry("asmbench", got.get(name), name, ops, isa, ref_tp(fmt(tpv)), ref_lt(fmt(ltv)), dict(isa=isa, bench="asmbench", ending=ending))
         except Exception as e:
             R.fail("C20/import/asmbench/crash", f"{isa}:asmbench-ending", f"asmbench file with {ending}: import raised {e!r}")
+    # a measurement of exactly 0 is a number like any other (a zero-latency move): the block is well-formed, every block is imported
+    text = []
+    for j, (name, ops, tpv, ltv) in enumerate(blocks[:4]):
+        text += [f"{name}-{'_'.join(ops)}", "Latency: 0.00 cy" if j == 1 else f"Latency: {fmt(ltv)} cy", f"Throughput: {fmt(tpv)} cy", ""]
+    R.case((isa, "asmbench-zero-latency"), sample=dict(isa=isa, bench="asmbench", kind="zero-latency"))
+    try:
+        got = run_import(arch, "asmbench", "\n".join(text) + "\n")
+        for j, (name, ops, tpv, ltv) in enumerate(blocks[:4]):
+            check_entry("asmbench", got.get(name), name, ops, isa, ref_tp(fmt(tpv)), 0.0 if j == 1 else ref_lt(fmt(ltv)), dict(isa=isa, bench="asmbench", kind="zero-latency", block=j))
+    except Exception as e:
+        R.fail("C20/import/asmbench/crash", f"{isa}:asmbench-zero-latency", f"asmbench file with 'Latency: 0.00 cy': import raised {e!r}")
     # kinds of corruption of one block: text on the separator line, the throughput line missing (separator kept), a
     # measurement that is no number, latency and throughput lines interchanged (statement: a malformed block stops the
     # import at that block without affecting earlier entries)
